@@ -25,20 +25,25 @@ pub fn run(env: &Env) {
         }
     }
     // wide shapes: the total L + 1 + M around word sizes (a mask / window slip shows only there); a few disclosure patterns each
-    for s in suites() { let k = key(s, "k0"); for (l, m) in [(60usize, 4usize), (59, 4), (63, 1), (63, 0), (64, 0), (65, 0), (0, 63), (0, 64), (32, 32), (31, 32), (100, 29), (127, 1), (128, 0), (1, 128), (0, 2045)] {
+    for s in suites() { let k = key(s, "k0"); for (l, m) in [(60usize, 4usize), (59, 4), (63, 1), (63, 0), (64, 0), (65, 0), (0, 63), (0, 64), (32, 32), (31, 32), (100, 29), (127, 1), (128, 0), (1, 128), (0, 200), (175, 30), (0, 2045)] {
         // (0, 2045): commitment_with_proof of 65 552 octets, proofs around 2^16 octets
-        if !env.thorough() && l + m > 130 { continue; }
+        if !env.thorough() && l + m > 210 { continue; }
         roots.push(Root { id: format!("{}/k0/L{}/M{}/h=16B/commit/wide", s.name(), l, m), suite: s, key: k.clone(), l, m, hn: hs[2].0.clone(), header: hs[2].1.clone(), ph: hs[2].1.clone(), mode: if m == 0 { "no-commitment(None)" } else { "commit" } });
     } }
-    env.ctx.set_rule("wide roots: (L, M) with L + 1 + M around 64 / 65 / 128 / 130 with disclosure patterns {none, all, first, last, even positions}; whenever a disclosed list is empty, all four spellings (None / Some(empty)) x (messages, indexes) must verify. roots = suites x k0 (thorough + k1) x (L, M) in [0..=3]^2 (thorough [0..=4]^2) x header/ph in {none,16B} x commitment mode {no commitment as None, as Some(empty), commit(None), commit(Some([])), commit over M messages}; per root: commit -> blind_sign(serialized commitment) -> verify_blind_sign(committed messages, blinding factor) and signature bytes = reference; then ALL 2^L x 2^M disclosure pairs: blind_proof_gen -> blind_proof_verify(L) -> from_bytes(to_bytes) -> reference verifies -> implementation verifies a reference-made proof. State = (root, D, Dc). Non-trivial = blind proof produced with production randomness and verified by both verifiers.");
+    // equal message contents across positions and across the two lists (a de-duplication by content shows only there)
+    for s in suites() { let k = key(s, "k0"); for (l, m) in [(2usize, 2usize), (3, 1), (1, 3)] {
+        roots.push(Root { id: format!("{}/k0/L{}/M{}/h=16B/commit/equal-messages", s.name(), l, m), suite: s, key: k.clone(), l, m, hn: hs[2].0.clone(), header: hs[2].1.clone(), ph: hs[2].1.clone(), mode: "commit" });
+    } }
+    env.ctx.set_rule("equal-message roots: every signer and committed message has the same content, all disclosure subsets. wide roots: (L, M) with L + 1 + M around 64 / 65 / 128 / 130 with disclosure patterns {none, all, first, last, even positions}; whenever a disclosed list is empty, all four spellings (None / Some(empty)) x (messages, indexes) must verify. roots = suites x k0 (thorough + k1) x (L, M) in [0..=3]^2 (thorough [0..=4]^2) x header/ph in {none,16B} x commitment mode {no commitment as None, as Some(empty), commit(None), commit(Some([])), commit over M messages}; per root: commit -> blind_sign(serialized commitment) -> verify_blind_sign(committed messages, blinding factor) and signature bytes = reference; then ALL 2^L x 2^M disclosure pairs: blind_proof_gen -> blind_proof_verify(L) -> from_bytes(to_bytes) -> reference verifies -> implementation verifies a reference-made proof. State = (root, D, Dc). Non-trivial = blind proof produced with production randomness and verified by both verifiers.");
     env.ctx.extra("deviation_bound_completed", json!(0));
     crate::hist::explore_families(env, &['B'], "blind interface histories");
     par_for(&roots, |_, r| {
         if !env.want(&r.id) || env.ctx.out_of_time() { return; }
         let zk = z(r.suite);
         let k = &r.key;
-        let msgs = distinct_msgs(seed, "c05m", r.l);
-        let cms = distinct_msgs(seed, "c05c", r.m);
+        let equal = r.id.ends_with("/equal-messages");
+        let msgs = if equal { vec![b"same content".to_vec(); r.l] } else { distinct_msgs(seed, "c05m", r.l) };
+        let cms = if equal { vec![b"same content".to_vec(); r.m] } else { distinct_msgs(seed, "c05c", r.m) };
         let det0 = json!({"suite": r.suite.name(), "key": k.id, "L": r.l, "M": r.m, "header/ph": r.hn, "mode": r.mode});
         let commits = r.mode.starts_with("commit");
         let (cwp, blind): (Option<Vec<u8>>, Option<[u8; 32]>) = if commits {
